@@ -42,17 +42,17 @@ CHECKS = {
  "C04": dict(
     text="AsyncLogger.tla has one action per channel operation (non-blocking send, Discard, DiscardOldest try/pop loop, blocking send, worker take/deliver, Stop marker send / wait). TLC checks per policy (2 producers, capacity 2): Conservation (every enabled item in exactly one of buffer/worker/delivered/dropped/in-flight), NoDuplicates, DisabledIgnored, BlockNeverDiscards, ConservationAtStop, plus the liveness property StopTerminates under worker fairness. AsyncGen.tla gives internal steps priority and emits every behaviour of 5 (quick) / 7 (thorough) external operations {event, disabled event, raw write, release worker, Stop} from occupancies 97..99 of a real 100-slot buffer plus simulated 14-operation behaviours with 3 producers; each is replayed on a Refresh-built AsyncLogger whose appender is gated, comparing delivery list, discard counter, parked item and returned/blocked calls at every settled state and conservation / FIFO / verbatim after Destroy. Randomized 1-32 producer runs on fast/slow/bursty appenders (incl. the suite's 5000+100 shape) are recorded and TLC evaluates the same laws on each recorded history.",
     note="Trusts TLC/SANY, Go toolchain, the gated recording appender (worker parked inside Append/Write). Negative observations ('still blocked') use a bounded wait on behaviour a correct implementation shows forever. Log calls concurrent with Stop are excluded by the property.",
-    technique='TLA+ spec (AsyncLogger) model-checked with TLC (+ refinement of AbstractFifo, + counter abstraction AsyncCounters with an inductive invariant discharged by Apalache); AsyncGen behaviours replayed on the real AsyncLogger via a gated appender; recorded multi-producer histories validated by TLC (AsyncHistory)',
+    technique='TLA+ spec (AsyncLogger) model-checked with TLC (+ refinement of AbstractFifo, + counter abstraction AsyncCounters with an inductive invariant discharged by Apalache and, in the thorough tier of C04, re-checked as a TLAPS proof); AsyncGen behaviours replayed on the real AsyncLogger via a gated appender; recorded multi-producer histories validated by TLC (AsyncHistory)',
     design="4/C04-C06", engine="asyncq"),
  "C05": dict(
     text="AsyncLogger.tla has one action per channel operation (non-blocking send, Discard, DiscardOldest try/pop loop, blocking send, worker take/deliver, Stop marker send / wait). TLC checks per policy (2 producers, capacity 2): ConservationAtStop (buffer empty, worker stopped, everything accepted delivered when Stop returns) and the liveness property StopTerminates; Stop is replayed at every occupancy including a full buffer (Stop itself blocked), with the worker idle / parked mid-append, plus the liveness property StopTerminates under worker fairness. AsyncGen.tla gives internal steps priority and emits every behaviour of 5 (quick) / 7 (thorough) external operations {event, disabled event, raw write, release worker, Stop} from occupancies 97..99 of a real 100-slot buffer plus simulated 14-operation behaviours with 3 producers; each is replayed on a Refresh-built AsyncLogger whose appender is gated, comparing delivery list, discard counter, parked item and returned/blocked calls at every settled state and conservation / FIFO / verbatim after Destroy. Randomized 1-32 producer runs on fast/slow/bursty appenders (incl. the suite's 5000+100 shape) are recorded and TLC evaluates the same laws on each recorded history.",
     note="Trusts TLC/SANY, Go toolchain, the gated recording appender (worker parked inside Append/Write). Negative observations ('still blocked') use a bounded wait on behaviour a correct implementation shows forever. Log calls concurrent with Stop are excluded by the property.",
-    technique='TLA+ spec (AsyncLogger) model-checked with TLC (+ refinement of AbstractFifo, + counter abstraction AsyncCounters with an inductive invariant discharged by Apalache); AsyncGen behaviours replayed on the real AsyncLogger via a gated appender; recorded multi-producer histories validated by TLC (AsyncHistory)',
+    technique='TLA+ spec (AsyncLogger) model-checked with TLC (+ refinement of AbstractFifo, + counter abstraction AsyncCounters with an inductive invariant discharged by Apalache and, in the thorough tier of C04, re-checked as a TLAPS proof); AsyncGen behaviours replayed on the real AsyncLogger via a gated appender; recorded multi-producer histories validated by TLC (AsyncHistory)',
     design="4/C04-C06", engine="asyncq"),
  "C06": dict(
     text="AsyncLogger.tla has one action per channel operation (non-blocking send, Discard, DiscardOldest try/pop loop, blocking send, worker take/deliver, Stop marker send / wait). TLC checks per policy (2 producers, capacity 2): ProducerFIFO, DiscardDropsArriving, DiscardOldestDropsHead, DiscardOldestKeepsArriving, NonBlocking (a producer under a discard policy always has an enabled step that does not involve the worker), BlockWaitsForSpace, plus the liveness property StopTerminates under worker fairness. AsyncGen.tla gives internal steps priority and emits every behaviour of 5 (quick) / 7 (thorough) external operations {event, disabled event, raw write, release worker, Stop} from occupancies 97..99 of a real 100-slot buffer plus simulated 14-operation behaviours with 3 producers; each is replayed on a Refresh-built AsyncLogger whose appender is gated, comparing delivery list, discard counter, parked item and returned/blocked calls at every settled state and conservation / FIFO / verbatim after Destroy. Randomized 1-32 producer runs on fast/slow/bursty appenders (incl. the suite's 5000+100 shape) are recorded and TLC evaluates the same laws on each recorded history.",
     note="Trusts TLC/SANY, Go toolchain, the gated recording appender (worker parked inside Append/Write). Negative observations ('still blocked') use a bounded wait on behaviour a correct implementation shows forever. Log calls concurrent with Stop are excluded by the property.",
-    technique='TLA+ spec (AsyncLogger) model-checked with TLC (+ refinement of AbstractFifo, + counter abstraction AsyncCounters with an inductive invariant discharged by Apalache); AsyncGen behaviours replayed on the real AsyncLogger via a gated appender; recorded multi-producer histories validated by TLC (AsyncHistory)',
+    technique='TLA+ spec (AsyncLogger) model-checked with TLC (+ refinement of AbstractFifo, + counter abstraction AsyncCounters with an inductive invariant discharged by Apalache and, in the thorough tier of C04, re-checked as a TLAPS proof); AsyncGen behaviours replayed on the real AsyncLogger via a gated appender; recorded multi-producer histories validated by TLC (AsyncHistory)',
     design="4/C04-C06", engine="asyncq"),
  "C11": dict(
     text="Caller.tla states the skip arithmetic of the default and the fast lookup over the logical call stack and a per-program-counter cache (SkipArithmetic, ModesAgree, HitEqualsMiss, DisabledIsEmpty) and enumerates 15 entry points x 7 call shapes (+ Record with skip 2, 3) x {default, fast} x enableCaller on/off in the site sequences A A A and A B A. Each case is executed through generated call sites that evaluate runtime.Caller on the logging statement's own line; the location in the record at a recording appender must equal it (empty when disabled). The model is small - the verdict comes from the replay, which is exhaustive over the enumerated space.",
